@@ -185,6 +185,15 @@ def encode(tape, M, out_wires, lazy=True):
     it = expand(tape, M)
     if any(x["k"] == "meas" and x["post"] is not None for x in it.items):
         raise NotEncodable("postselection")
+    # lifetimes: after a measurement with reset the wire is |0> and unentangled, exactly like a fresh wire; the qubit
+    # manager of the conversion re-uses such labels, so every lifetime of a label is its own wire (label, version)
+    ver = {}
+    for x in it.items:
+        x["wires"] = [(w, ver.get(w, 0)) for w in x["wires"]]
+        if x["k"] == "meas" and x["reset"]:
+            w = x["wires"][0][0]
+            ver[w] = ver.get(w, 0) + 1
+    out_wires = [(w, ver.get(w, 0)) for w in out_wires]
     order = schedule(it, lazy)
     items = [it.items[i] for i in order]
     last_use = {}
@@ -204,7 +213,7 @@ def encode(tape, M, out_wires, lazy=True):
                     pos[w] = nxt
                 max_n = max(max_n, pos[w])
         if x["k"] == "gate":
-            r = encode_op(x["op"], pos, M)
+            r = encode_op(x["op"], {w[0]: pos[w] for w in x["wires"]}, M)
             if r is None:
                 continue
             if x["cond"] is None:
